@@ -224,6 +224,46 @@ def r5_io_locked(ctx, prog):
     # writeAttributes' precondition at its call sites is part of the store() instance above (the call is an event there)
 
 
+def r8_transactions_start_from_disk(ctx, prog, rule_id='C15.R8'):
+    """Two processes that change the same object serialise on its lock file - but the later one must then work on what the earlier one committed: after ObjectFile::startTransaction()
+    has taken the lock, the cached attributes are re-validated against the disk (the generation is looked at / the file re-read) before the transaction is declared open.  Without that
+    the later committer rewrites the whole file from its stale cache: the other process's committed change is lost, an object the other process destroyed is written back."""
+    r = ctx.rule(rule_id, 'a transaction on an object file starts from what is on disk: the cached copy is re-validated after the lock was taken', floor=1, engine='E3 must-pass-through between the lock and the open transaction')
+    f = prog.fn('ObjectFile::startTransaction')
+    ctx.analysed(f)
+    from engine.interp import Outcomes
+    o = Outcomes(f, prog, cenv={'inTransaction': 0}, record_calls={'lock', 'wasUpdated', 'refresh', 'sync', 'index'})
+    o.CAP = 64
+    o.go()
+    r.paths += len(o.outcomes)
+    site = 'between lock() and the open transaction'
+    opened = [oc for oc in o.outcomes if str(oc.get('ret')) in ('true', '1')]
+    bad = [oc for oc in opened if not any(e[0] == 'call' and e[1] in ('wasUpdated', 'refresh', 'sync') and any(x[0] == 'call' and x[1] == 'lock' and x[3] <= e[3] for x in oc['events']) for e in oc['events'])]
+    if not opened:
+        r.undecided(f['qname'], site, 'no path opens a transaction', file=f['file'], line=f['line'])
+    elif bad:
+        r.violation(f['qname'], site, 'the transaction is opened on the cached attributes without looking at the disk after the lock was taken: a change another process committed while this one waited for the lock is overwritten by this commit (lost update), an object the other process destroyed is written back',
+                    file=f['file'], line=bad[0]['line'], path=bad[0]['path'])
+    else:
+        r.ok(f['qname'], site, '%d opening paths re-validate' % len(opened), file=f['file'], line=f['line'])
+
+
+def r9_pin_blobs_current(ctx, prog, rule_id='C15.R9'):
+    """The SO and user PIN blobs live in token.object, which every process re-reads - but a login verifies against the SecureDataManager, which is filled from the blobs when the
+    Token object is constructed.  A PIN another process changed must be the PIN this process checks: the functions that verify a PIN re-read the blob from the token object first."""
+    r = ctx.rule(rule_id, 'a PIN is verified against the PIN blob that is on disk now (re-read from the token object), not against the copy taken at C_Initialize', floor=2, engine='E5 must-read before the verification')
+    for q in ('Token::loginSO', 'Token::loginUser'):
+        f = prog.fn(q)
+        ctx.analysed(f)
+        rereads = [c for c in calls(f['body']) if short(c.get('callee')) in ('getSOPIN', 'getUserPIN')]
+        site = 'PIN blob re-read'
+        if rereads:
+            r.ok(q, site, 'line %s' % rereads[0]['l'], file=f['file'], line=rereads[0]['l'])
+        else:
+            r.violation(q, site, 'the PIN is verified by the SecureDataManager that was filled at C_Initialize; the blob in token.object is not read again: after another process changed the PIN this process still accepts the old PIN and refuses the new one (and a C_InitToken with the old SO PIN wipes the token)',
+                        file=f['file'], line=f['line'])
+
+
 def run(ctx):
     prog = ctx.prog('ossl-file')
     r1_chain(ctx, prog)
@@ -236,6 +276,8 @@ def run(ctx):
     c11.r3_validate(ctx, prog, rule_id='C15.R6')
     from rules import c09
     c09.r2_pairing(ctx, prog, rule_id='C15.R7')
+    r8_transactions_start_from_disk(ctx, prog)
+    r9_pin_blobs_current(ctx, prog)
 
 
 MUTANTS = [
